@@ -233,7 +233,19 @@ claim('C09',
       'Trusted: the idiom tables of SP2/SP3 (slice texts); a restructured encoder/decoder is reported as analysis error, never as a violation.',
       'ast sibling (encoder/decoder) agreement: slice-map extraction, alpha-renamed twin comparison, literal table checks',
       'DESIGN.md 4 (SP), 5 C09')
-na('C14', 'group axioms of computed Cayley tables, partition and tableau counts are value-level combinatorics; only a 4x4 literal is visible statically')
+claim('C14',
+      'A thin clause-level claim. Decides structural necessary conditions of the table constructors: the left regular form places the 1 '
+      'of L(g) at [g*h, h] - the homomorphic orientation (GR1); the literal Klein-four table is a group table, checked exhaustively on the '
+      'literal (Latin square, identity, involutions, 64 associativity triples; GR2); cyclic and multiplicative tables use (i+j) mod n over '
+      'arange(n) / (x*y) mod n over exactly the units with a lookup built from the same element list (GR3); symmetric, alternating and '
+      'dihedral tables compose permutations as perm[:, perm] and look the composite up in a dictionary enumerating the composed list; the '
+      'alternating filter keeps even cycle type (GR4); hook lengths are arm + leg + 1 on the cells of the mask with dimension exponents '
+      '1 - count(k) (GR5); the partition count follows p(n,m) = sum_r p(n - r m, m-1) with unit boundary (GR6); cached tables are not mutated by '
+      'package code (O1). That a COMPUTED table satisfies the group axioms, faithfulness / unitarity / sum d^2 = |G| of the reduced irreps, '
+      'exactness of the Young-diagram list and the tableau enumeration versus the hook-length count are value-level and NOT decided.',
+      'Trusted: the idiom tables of GR3-GR6 (a restructured constructor is reported as analysis error, never as a violation).',
+      'ast idiom checks + exhaustive finite evaluation of a literal table by the checker',
+      'DESIGN.md 4 (GR), 5 C14')
 claim('C17',
       'Decides the relabelling clauses: numqi.utils.partial_trace contracts with legs rows=range(N0), cols=range(N0,2N0) where exactly the '
       'complement of the sorted, de-duplicated keep set shares one leg between row and column, and returns kept rows then kept columns in '
